@@ -311,3 +311,1041 @@ Proof.
     apply (find_free_some _ _ _ _ _ Hc).
   - exists orig. split; [reflexivity | apply mem_str_false; exact E].
 Qed.
+
+(* ================================================================================== component de-clash *)
+
+Lemma sinsert_in : forall s l x, In x (sinsert s l) <-> x = s \/ In x l.
+Proof.
+  intros s l. induction l as [|y r IH]; intros x; cbn.
+  - split; [intros [H|[]]; left; symmetry; exact H | intros [H|[]]; left; symmetry; exact H].
+  - destruct (String.compare s y) eqn:E.
+    + apply String.compare_eq_iff in E. subst y. cbn. split; [intros H; right; exact H|].
+      intros [H|H]; [left; symmetry; exact H | exact H].
+    + cbn. split; [intros [H|H]; [left; symmetry; exact H | right; exact H]|].
+      intros [H|H]; [left; symmetry; exact H | right; exact H].
+    + cbn. rewrite IH. tauto.
+Qed.
+
+Lemma sunion_in : forall b a x, In x (sunion a b) <-> In x a \/ In x b.
+Proof.
+  unfold sunion. induction b as [|y r IH]; intros a x; cbn; [tauto|].
+  rewrite IH, sinsert_in. intuition (subst; auto).
+Qed.
+
+Definition declash_keys (ck pk : list comp) : list string :=
+  sunion (sunion [] (descendant_names ck)) (descendant_names pk).
+
+Lemma declash_keys_in : forall ck pk x, In x (declash_keys ck pk) <-> In x (comps_names ck) \/ In x (comps_names pk).
+Proof.
+  intros ck pk x. unfold declash_keys, descendant_names. rewrite !sunion_in. cbn. tauto.
+Qed.
+
+Lemma NoDup_app_single : forall (A : Type) (l : list A) (x : A), NoDup l -> ~ In x l -> NoDup (l ++ [x]).
+Proof.
+  intros A l x Hnd Hx. induction l as [|y r IH]; cbn; [constructor; [intros []|constructor]|].
+  inversion Hnd as [|? ? Hy Hr]; subst. constructor.
+  - intros Hin. apply in_app_or in Hin. destruct Hin as [Hin|[Hin|[]]]; [contradiction|]. subst. apply Hx. left. reflexivity.
+  - apply IH; [exact Hr|]. intros Hin. apply Hx. right. exact Hin.
+Qed.
+
+(* what the loop has done so far: new names are pairwise distinct, unused before, of the form orig_k *)
+Record declash_inv (compNames used0 used : list string) (done : list (string * string)) : Prop := {
+  di_incl : incl used0 used;
+  di_new_used : forall o n, In (o, n) done -> In n used;
+  di_nodup : NoDup (map snd done);
+  di_fresh : forall o n, In (o, n) done -> In o compNames /\ ~ In n used0 /\ exists k, n = candidate o k
+}.
+
+Lemma declash_step_inv : forall fx compNames used0 ck pk used done orig,
+  fx_clash fx = true -> declash_inv compNames used0 used done ->
+  exists ck' pk' used' done', declash_step fx compNames (FOk (ck, pk, used, done)) orig = FOk (ck', pk', used', done')
+                              /\ declash_inv compNames used0 used' done'.
+Proof.
+  intros fx compNames used0 ck pk used done orig Hfx Hinv. unfold declash_step. cbn [fbind].
+  destruct (mem_str orig compNames) eqn:Em.
+  - rewrite Hfx. destruct (find_free_total used orig 1) as [c Hc]. rewrite Hc.
+    destruct (find_free_some _ _ _ _ _ Hc) as [Hnot [j [_ [Hcj _]]]].
+    destruct (rename_first_in orig c ck) as [ck' d] eqn:Er.
+    eexists _, _, _, _. split; [reflexivity|].
+    destruct Hinv as [Hincl Hnu Hnd Hfr]. constructor.
+    + intros x Hx. apply in_or_app. left. apply Hincl. exact Hx.
+    + intros o n Hin. apply in_app_or in Hin. destruct Hin as [Hin|[Hin|[]]].
+      * apply in_or_app. left. apply (Hnu _ _ Hin).
+      * inversion Hin; subst. apply in_or_app. right. left. reflexivity.
+    + rewrite map_app. cbn. apply NoDup_app_single.
+      * exact Hnd.
+      * intros Hin. apply in_map_iff in Hin. destruct Hin as [[o n] [E Hin]]. cbn in E. subst n.
+        apply Hnot. apply (Hnu _ _ Hin).
+    + intros o n Hin. apply in_app_or in Hin. destruct Hin as [Hin|[Hin|[]]].
+      * apply (Hfr _ _ Hin).
+      * inversion Hin; subst o n. split; [apply mem_str_in; exact Em|]. split.
+        -- intros Hu. apply Hnot. apply Hincl. exact Hu.
+        -- exists (1 + j). exact Hcj.
+  - eexists _, _, _, _. split; [reflexivity | exact Hinv].
+Qed.
+
+Lemma declash_fold_inv : forall fx compNames used0 keys ck pk used done,
+  fx_clash fx = true -> declash_inv compNames used0 used done ->
+  exists ck' pk' used' done',
+    fold_left (declash_step fx compNames) keys (FOk (ck, pk, used, done)) = FOk (ck', pk', used', done')
+    /\ declash_inv compNames used0 used' done'.
+Proof.
+  intros fx compNames used0 keys. induction keys as [|k r IH]; intros ck pk used done Hfx Hinv; cbn [fold_left].
+  - eexists _, _, _, _. split; [reflexivity | exact Hinv].
+  - destruct (declash_step_inv fx compNames used0 ck pk used done k Hfx Hinv) as [ck1 [pk1 [u1 [d1 [E Hinv1]]]]].
+    rewrite E. apply IH; assumption.
+Qed.
+
+(* declash_unique: with the repaired loop the search always ends, the new names are pairwise distinct, none of them is a
+   name of the importing model or a name that stays in the imported hierarchy, and only clashing names are renamed *)
+Theorem declash_unique : forall fx compNames ck pk, fx_clash fx = true ->
+  exists ck' pk' done, declash fx compNames ck pk = FOk (ck', pk', done)
+    /\ NoDup (map snd done)
+    /\ forall o n, In (o, n) done ->
+         In o compNames /\ ~ In n compNames /\ ~ In n (comps_names ck) /\ ~ In n (comps_names pk) /\ exists k, n = candidate o k.
+Proof.
+  intros fx compNames ck pk Hfx. unfold declash. fold (declash_keys ck pk).
+  assert (Hinv0 : declash_inv compNames (compNames ++ declash_keys ck pk) (compNames ++ declash_keys ck pk) []).
+  { constructor; [apply incl_refl | intros o n [] | constructor | intros o n []]. }
+  destruct (declash_fold_inv fx compNames _ (declash_keys ck pk) ck pk _ [] Hfx Hinv0) as [ck' [pk' [u' [d' [E Hinv]]]]].
+  rewrite E. cbn [fbind]. exists ck', pk', d'. split; [reflexivity|]. destruct Hinv as [_ _ Hnd Hfr]. split; [exact Hnd|].
+  intros o n Hin. destruct (Hfr _ _ Hin) as [Ho [Hn Hk]]. split; [exact Ho|].
+  split; [intros H; apply Hn; apply in_or_app; left; exact H|].
+  split; [intros H; apply Hn; apply in_or_app; right; apply declash_keys_in; left; exact H|].
+  split; [intros H; apply Hn; apply in_or_app; right; apply declash_keys_in; right; exact H | exact Hk].
+Qed.
+
+(* before 7acb380 the loop compared a candidate only with the names of the importing model: two imported components
+   end up with the same name (importer: k; imported hierarchy: k and k_1) *)
+Definition leaf (n : string) : comp := Comp (OFresh 0) n None [] [] [].
+Lemma declash_unique_refuted :
+  exists compNames ck, match declash flat_unfixed compNames ck [] with
+                       | FOk (ck', _, _) => ~ NoDup (comps_names ck')
+                       | _ => True
+                       end.
+Proof.
+  exists ["k"; "c"], [leaf "k"; leaf "k_1"]. vm_compute. intros H. inversion H as [|? ? Hn _]. apply Hn. left. reflexivity.
+Qed.
+
+(* ================================================================================== no imports on return *)
+
+Lemma flatten_loop_has_no_imports : forall rounds fuel fx libs fs fs',
+  flatten_loop rounds fuel fx libs fs = FOk fs' -> has_imports fuel fs' = FOk false.
+Proof.
+  induction rounds as [|r IH]; intros fuel fx libs fs fs' H; cbn [flatten_loop] in H; [discriminate|].
+  destruct (has_imports fuel fs) as [b| | |] eqn:Eb; cbn [fbind] in H; try discriminate.
+  destruct b.
+  - destruct (top_units_loop fuel fx libs 0 fs) as [fs1| | |]; cbn [fbind] in H; try discriminate.
+    destruct (top_comps_loop fuel fx libs (List.length (f_comps fs1)) 0 fs1) as [fs2| | |]; cbn [fbind] in H; try discriminate.
+    apply (IH _ _ _ _ _ H).
+  - inversion H; subst. exact Eb.
+Qed.
+
+Lemma units_fold_false : forall fuel U l acc,
+  fold_left (fun (acc : fres bool) u => do b <- acc; if (b : bool) then FOk true else has_units_imports fuel U u) l acc = FOk false ->
+  acc = FOk false /\ forall u, In u l -> has_units_imports fuel U u = FOk false.
+Proof.
+  intros fuel U l. induction l as [|u r IH]; intros acc H; cbn [fold_left] in H.
+  - split; [exact H | intros u []].
+  - destruct (IH _ H) as [Hacc Hall].
+    destruct acc as [b| | |]; cbn [fbind] in Hacc; try discriminate.
+    destruct b; [discriminate|]. split; [reflexivity|].
+    intros x [E|Hin]; [subst; exact Hacc | apply Hall; exact Hin].
+Qed.
+
+Lemma has_units_imports_false_local : forall fuel U u, has_units_imports fuel U u = FOk false -> u_imp u = None.
+Proof.
+  intros [|f] U u H; cbn [has_units_imports] in H; [discriminate|].
+  destruct (u_imp u); [discriminate | reflexivity].
+Qed.
+
+Lemma has_imports_false : forall fuel fs, has_imports fuel fs = FOk false ->
+  (forall u, In u (f_units fs) -> u_imp u = None) /\ (forall c, In c (f_comps fs) -> comp_has_imports c = false).
+Proof.
+  intros fuel fs H. unfold has_imports in H.
+  destruct (fold_left _ (f_units fs) (FOk false)) as [b| | |] eqn:E; cbn [fbind] in H; try discriminate.
+  destruct b; [discriminate|]. assert (Hc : existsb comp_has_imports (f_comps fs) = false) by congruence. clear H. split.
+  - intros u Hin. destruct (units_fold_false _ _ _ _ E) as [_ Hall]. apply (has_units_imports_false_local _ _ _ (Hall _ Hin)).
+  - intros c Hin. destruct (comp_has_imports c) eqn:Ec; [|reflexivity].
+    assert (Hx : existsb comp_has_imports (f_comps fs) = true) by (apply existsb_exists; exists c; split; assumption).
+    rewrite Hx in Hc. discriminate.
+Qed.
+
+(* a component tree without import: no component of it, at any depth, is an import *)
+Fixpoint comp_import_free (c : comp) : Prop :=
+  match c with
+  | Comp _ _ im _ _ kids => im = None /\ (fix all (l : list comp) : Prop := match l with [] => True | k :: r => comp_import_free k /\ all r end) kids
+  end.
+
+Lemma comp_has_imports_false : forall c, comp_has_imports c = false -> comp_import_free c.
+Proof.
+  fix IH 1. intros [o n im m v kids] H. cbn [comp_has_imports] in H. cbn [comp_import_free].
+  destruct im; [discriminate|]. split; [reflexivity|].
+  induction kids as [|k r IHr]; [exact I|]. cbn [existsb] in H. apply orb_false_iff in H. destruct H as [Hk Hr].
+  split; [apply IH; exact Hk | apply IHr; exact Hr].
+Qed.
+
+(* flatten_no_imports: whenever the model of flattenModel returns a model, no units and no component of it is an import *)
+Theorem flatten_no_imports : forall rounds fuel fx libs m n0 m' st,
+  flatten_model rounds fuel fx libs m n0 = FOk (m', st) ->
+  (forall u, In u (m_units m') -> u_imp u = None) /\ (forall c, In c (m_comps m') -> comp_import_free c).
+Proof.
+  intros rounds fuel fx libs m n0 m' st H. unfold flatten_model in H.
+  destruct (clone_model m {| nx := n0; wlog := [] |}) as [[flat st0]| | |]; cbn [fbind] in H; try discriminate.
+  destruct (flatten_loop rounds fuel fx libs _) as [fs'| | |] eqn:E; cbn [fbind] in H; try discriminate.
+  inversion H; subst m' st. cbn [m_units m_comps].
+  destruct (has_imports_false _ _ (flatten_loop_has_no_imports _ _ _ _ _ _ E)) as [Hu Hc].
+  split; [exact Hu|]. intros c Hin. apply comp_has_imports_false. apply Hc. exact Hin.
+Qed.
+
+(* ================================================================================== equivalences *)
+
+Definition has_pair (eqs : list eqv) (a b : nat) : Prop := exists e, In e eqs /\ pair_is a b e = true.
+
+Lemma pair_is_sym : forall a b e, pair_is a b e = pair_is b a e.
+Proof. intros a b e. unfold pair_is. apply orb_comm. Qed.
+
+Lemma has_pair_sym : forall eqs a b, has_pair eqs a b -> has_pair eqs b a.
+Proof. intros eqs a b [e [H1 H2]]. exists e. split; [exact H1 | rewrite pair_is_sym; exact H2]. Qed.
+
+Lemma pair_is_endpoints : forall a b e, pair_is a b e = true -> (e_a e = a /\ e_b e = b) \/ (e_a e = b /\ e_b e = a).
+Proof.
+  intros a b e H. unfold pair_is in H. apply orb_true_iff in H. destruct H as [H|H]; apply andb_true_iff in H; destruct H as [H1 H2];
+    apply Nat.eqb_eq in H1; apply Nat.eqb_eq in H2; [left | right]; split; assumption.
+Qed.
+
+Lemma pair_is_same_ends : forall a b e e', e_a e' = e_a e -> e_b e' = e_b e -> pair_is a b e' = pair_is a b e.
+Proof. intros a b e e' H1 H2. unfold pair_is. rewrite H1, H2. reflexivity. Qed.
+
+Lemma add_equivalence_new : forall a b ids eqs, a <> b -> has_pair (add_equivalence a b ids eqs) a b.
+Proof.
+  intros a b ids eqs Hab. unfold add_equivalence. destruct (Nat.eqb a b) eqn:E; [apply Nat.eqb_eq in E; contradiction|].
+  destruct (existsb (pair_is a b) eqs) eqn:Ex.
+  - apply existsb_exists in Ex. destruct Ex as [e [Hin Hp]]. destruct ids as [[mi ci]|].
+    + exists (if pair_is a b e then {| e_a := e_a e; e_b := e_b e; e_map := mi; e_conn := ci |} else e). split.
+      * apply in_map_iff. exists e. split; [reflexivity | exact Hin].
+      * rewrite Hp. unfold pair_is in *. cbn. exact Hp.
+    + exists e. split; assumption.
+  - eexists. split; [apply in_or_app; right; left; reflexivity|]. unfold pair_is. cbn. rewrite !Nat.eqb_refl. reflexivity.
+Qed.
+
+Lemma add_equivalence_mono : forall a b ids eqs x y, has_pair eqs x y -> has_pair (add_equivalence a b ids eqs) x y.
+Proof.
+  intros a b ids eqs x y [e [Hin Hp]]. unfold add_equivalence. destruct (Nat.eqb a b); [exists e; split; assumption|].
+  destruct (existsb (pair_is a b) eqs).
+  - destruct ids as [[mi ci]|]; [|exists e; split; assumption].
+    exists (if pair_is a b e then {| e_a := e_a e; e_b := e_b e; e_map := mi; e_conn := ci |} else e). split.
+    + apply in_map_iff. exists e. split; [reflexivity | exact Hin].
+    + destruct (pair_is a b e); [|exact Hp]. unfold pair_is in *. cbn. exact Hp.
+  - exists e. split; [apply in_or_app; left; exact Hin | exact Hp].
+Qed.
+
+Lemma add_equivalence_sound : forall a b ids eqs x y, has_pair (add_equivalence a b ids eqs) x y ->
+  has_pair eqs x y \/ ((x = a /\ y = b) \/ (x = b /\ y = a)).
+Proof.
+  intros a b ids eqs x y [e [Hin Hp]]. unfold add_equivalence in Hin. destruct (Nat.eqb a b); [left; exists e; split; assumption|].
+  destruct (existsb (pair_is a b) eqs).
+  - destruct ids as [[mi ci]|]; [|left; exists e; split; assumption].
+    apply in_map_iff in Hin. destruct Hin as [e0 [E Hin0]]. left. exists e0. split; [exact Hin0|].
+    destruct (pair_is a b e0); [|subst; exact Hp]. subst e. unfold pair_is in *. cbn in Hp. exact Hp.
+  - apply in_app_or in Hin. destruct Hin as [Hin|[E|[]]]; [left; exists e; split; assumption|].
+    right. subst e. destruct (pair_is_endpoints _ _ _ Hp) as [[H1 H2]|[H1 H2]]; cbn in H1, H2; [left | right]; split; congruence.
+Qed.
+
+(* after a write with ids, every entry for that pair carries them *)
+Lemma add_equivalence_ids : forall a b mi ci eqs e, a <> b -> In e (add_equivalence a b (Some (mi, ci)) eqs) ->
+  pair_is a b e = true -> e_map e = mi /\ e_conn e = ci.
+Proof.
+  intros a b mi ci eqs e Hab Hin Hp. unfold add_equivalence in Hin.
+  destruct (Nat.eqb a b) eqn:E; [apply Nat.eqb_eq in E; contradiction|].
+  destruct (existsb (pair_is a b) eqs) eqn:Ex.
+  - apply in_map_iff in Hin. destruct Hin as [e0 [E0 Hin0]]. destruct (pair_is a b e0) eqn:Ep.
+    + subst e. cbn. split; reflexivity.
+    + subst e. congruence.
+  - apply in_app_or in Hin. destruct Hin as [Hin|[E0|[]]].
+    + exfalso. assert (Hx : existsb (pair_is a b) eqs = true) by (apply existsb_exists; exists e; split; assumption). congruence.
+    + subst e. cbn. split; reflexivity.
+Qed.
+
+(* ... and the entries of other pairs are untouched *)
+Lemma add_equivalence_other : forall a b ids eqs e, In e (add_equivalence a b ids eqs) -> pair_is a b e = false -> In e eqs.
+Proof.
+  intros a b ids eqs e Hin Hp. unfold add_equivalence in Hin. destruct (Nat.eqb a b); [exact Hin|].
+  destruct (existsb (pair_is a b) eqs).
+  - destruct ids as [[mi ci]|]; [|exact Hin].
+    apply in_map_iff in Hin. destruct Hin as [e0 [E0 Hin0]]. destruct (pair_is a b e0) eqn:Ep.
+    + subst e. unfold pair_is in *. cbn in Hp. congruence.
+    + subst e. exact Hin0.
+  - apply in_app_or in Hin. destruct Hin as [Hin|[E0|[]]]; [exact Hin|].
+    subst e. unfold pair_is in Hp. cbn in Hp. rewrite !Nat.eqb_refl in Hp. discriminate.
+Qed.
+
+(* ---- applyEquivalenceMapToModel *)
+
+Definition em_pairs (em : eqmap) : list (path * path) := flat_map (fun kv => map (fun t => (fst kv, t)) (snd kv)) em.
+
+Lemma em_pairs_in : forall em k t, In (k, t) (em_pairs em) <-> exists ts, In (k, ts) em /\ In t ts.
+Proof.
+  intros em k t. unfold em_pairs. rewrite in_flat_map. split.
+  - intros [[k0 ts] [Hin H]]. cbn in H. apply in_map_iff in H. destruct H as [t0 [E Ht]]. inversion E; subst. exists ts. split; assumption.
+  - intros [ts [Hin Ht]]. exists (k, ts). split; [exact Hin|]. cbn. apply in_map_iff. exists t. split; [reflexivity | exact Ht].
+Qed.
+
+Definition apply_step (cs : list comp) (ids : option (string * string)) (acc : fres (list eqv)) (kt : path * path) : fres (list eqv) :=
+  make_equivalence cs (fst kt) (snd kt) ids acc.
+
+Lemma inner_fold_pairs : forall cs (k : path) ts acc,
+  fold_left (fun acc t => make_equivalence cs k t None acc) ts acc
+  = fold_left (apply_step cs None) (map (fun t => (k, t)) ts) acc.
+Proof. intros cs k ts. induction ts as [|t r IH]; intros acc; cbn; [reflexivity | apply IH]. Qed.
+
+Lemma apply_map_pairs : forall cs em eqs, apply_map cs em eqs = fold_left (apply_step cs None) (em_pairs em) (FOk eqs).
+Proof.
+  intros cs em eqs. unfold apply_map. generalize (FOk eqs) as acc.
+  induction em as [|[k ts] r IH]; intros acc; cbn [fold_left em_pairs flat_map]; [reflexivity|].
+  rewrite fold_left_app. cbn [fst snd]. rewrite <- inner_fold_pairs. apply IH.
+Qed.
+
+Lemma apply_step_error : forall cs ids l (acc : fres (list eqv)), (forall x, acc <> FOk x) ->
+  forall x, fold_left (apply_step cs ids) l acc <> FOk x.
+Proof.
+  intros cs ids l. induction l as [|kt r IH]; intros acc H x; cbn [fold_left]; [apply H|].
+  apply IH. intros y. unfold apply_step, make_equivalence. destruct acc; cbn [fbind]; try discriminate. exfalso. apply (H a). reflexivity.
+Qed.
+
+Definition oids_pair_eq (x y a b : nat) : Prop := (x = a /\ y = b) \/ (x = b /\ y = a).
+
+(* soundness and monotonicity: a pair of the result was there before or joins the variables located at an entry of the map *)
+Lemma apply_pairs_sound : forall cs l eqs eqs', fold_left (apply_step cs None) l (FOk eqs) = FOk eqs' ->
+  (forall x y, has_pair eqs x y -> has_pair eqs' x y) /\
+  (forall x y, has_pair eqs' x y -> has_pair eqs x y \/
+     exists k t v1 v2, In (k, t) l /\ var_located_at cs k = LVar v1 /\ var_located_at cs t = LVar v2 /\ oids_pair_eq x y (v_oid v1) (v_oid v2)).
+Proof.
+  intros cs l. induction l as [|[k t] r IH]; intros eqs eqs' H; cbn [fold_left] in H.
+  - inversion H; subst. split; [auto | intros x y Hp; left; exact Hp].
+  - unfold apply_step at 2 in H. cbn [fst snd] in H. unfold make_equivalence in H. cbn [fbind] in H.
+    destruct (var_located_at cs k) as [| |v1] eqn:E1.
+    + exfalso. eapply apply_step_error; [|exact H]. intros x. discriminate.
+    + destruct (var_located_at cs t) as [| |v2] eqn:E2.
+      * exfalso. eapply apply_step_error; [|exact H]. intros x. discriminate.
+      * destruct (IH _ _ H) as [Hm Hs]. split; [exact Hm|]. intros x y Hp. destruct (Hs _ _ Hp) as [Hl|[k' [t' [w1 [w2 [Hin Hr]]]]]]; [left; exact Hl|].
+        right. exists k', t', w1, w2. split; [right; exact Hin | exact Hr].
+      * destruct (IH _ _ H) as [Hm Hs]. split; [exact Hm|]. intros x y Hp. destruct (Hs _ _ Hp) as [Hl|[k' [t' [w1 [w2 [Hin Hr]]]]]]; [left; exact Hl|].
+        right. exists k', t', w1, w2. split; [right; exact Hin | exact Hr].
+    + destruct (var_located_at cs t) as [| |v2] eqn:E2.
+      * exfalso. eapply apply_step_error; [|exact H]. intros x. discriminate.
+      * destruct (IH _ _ H) as [Hm Hs]. split; [exact Hm|]. intros x y Hp. destruct (Hs _ _ Hp) as [Hl|[k' [t' [w1 [w2 [Hin Hr]]]]]]; [left; exact Hl|].
+        right. exists k', t', w1, w2. split; [right; exact Hin | exact Hr].
+      * destruct (IH _ _ H) as [Hm Hs]. split.
+        -- intros x y Hp. apply Hm. apply add_equivalence_mono. exact Hp.
+        -- intros x y Hp. destruct (Hs _ _ Hp) as [Hl|[k' [t' [w1 [w2 [Hin Hr]]]]]].
+           ++ destruct (add_equivalence_sound _ _ _ _ _ _ Hl) as [Ho|Hn]; [left; exact Ho|].
+              right. exists k, t, v1, v2. split; [left; reflexivity|]. split; [exact E1|]. split; [exact E2 | exact Hn].
+           ++ right. exists k', t', w1, w2. split; [right; exact Hin | exact Hr].
+Qed.
+
+(* completeness: every entry whose two stacks locate two different variables is an equivalence afterwards *)
+Lemma apply_pairs_complete : forall cs l eqs eqs', fold_left (apply_step cs None) l (FOk eqs) = FOk eqs' ->
+  forall k t v1 v2, In (k, t) l -> var_located_at cs k = LVar v1 -> var_located_at cs t = LVar v2 -> v_oid v1 <> v_oid v2 ->
+  has_pair eqs' (v_oid v1) (v_oid v2).
+Proof.
+  intros cs l. induction l as [|[k0 t0] r IH]; intros eqs eqs' H k t v1 v2 Hin E1 E2 Hne; [destruct Hin|].
+  cbn [fold_left] in H. destruct Hin as [E|Hin].
+  - inversion E; subst k0 t0. unfold apply_step at 2 in H. cbn [fst snd] in H. unfold make_equivalence in H. cbn [fbind] in H.
+    rewrite E1, E2 in H. destruct (apply_pairs_sound _ _ _ _ H) as [Hm _]. apply Hm. apply add_equivalence_new. exact Hne.
+  - destruct (apply_step cs None (FOk eqs) (k0, t0)) as [eqs1| | |] eqn:Es.
+    + apply (IH _ _ H k t v1 v2 Hin E1 E2 Hne).
+    + exfalso. eapply apply_step_error; [|exact H]. intros x. discriminate.
+    + exfalso. eapply apply_step_error; [|exact H]. intros x. discriminate.
+    + exfalso. eapply apply_step_error; [|exact H]. intros x. discriminate.
+Qed.
+
+(* totality: the only way to fail is a stack that does not lead to a component *)
+Lemma apply_pairs_total : forall cs l eqs, (forall k t, In (k, t) l -> var_located_at cs k <> LCrash /\ var_located_at cs t <> LCrash) ->
+  exists eqs', fold_left (apply_step cs None) l (FOk eqs) = FOk eqs'.
+Proof.
+  intros cs l. induction l as [|[k t] r IH]; intros eqs H; cbn [fold_left]; [eexists; reflexivity|].
+  destruct (H k t (or_introl eq_refl)) as [H1 H2].
+  unfold apply_step at 2. cbn [fst snd]. unfold make_equivalence. cbn [fbind].
+  destruct (var_located_at cs k); [congruence| |]; destruct (var_located_at cs t); try congruence;
+    apply IH; intros k' t' Hin; apply H; right; exact Hin.
+Qed.
+
+(* ---- rebased map applied: the recorded equivalences of the imported component are re-created at the destination *)
+
+Theorem apply_rebased_complete : forall cs em origin dest eqs eqs',
+  dest <> [] ->
+  NoDup (map (fun kv => rebase_stack (fst kv) origin dest) em) ->
+  apply_map cs (rebase_map em origin dest) eqs = FOk eqs' ->
+  forall k ts rk rt i v1 v2,
+    In (k, ts) em -> In (origin ++ rt ++ [i]) ts -> k = origin ++ rk ->
+    var_located_at cs (dest ++ rk) = LVar v1 -> var_located_at cs (dest ++ rt ++ [i]) = LVar v2 -> v_oid v1 <> v_oid v2 ->
+    has_pair eqs' (v_oid v1) (v_oid v2).
+Proof.
+  intros cs em origin dest eqs eqs' Hd Hnd H k ts rk rt i v1 v2 Hin Ht Hk E1 E2 Hne.
+  rewrite apply_map_pairs in H.
+  assert (Htg : In (dest ++ rt ++ [i]) (rebase_targets ts origin dest)).
+  { apply rebase_targets_in. exists (origin ++ rt ++ [i]). split; [exact Ht | apply rebase_target_inside; exact Hd]. }
+  assert (Hne2 : rebase_targets ts origin dest <> []) by (intros E; rewrite E in Htg; destruct Htg).
+  pose proof (rebase_map_complete em origin dest Hnd k ts Hin Hne2) as Hent.
+  subst k. rewrite rebase_stack_prefix in Hent.
+  apply (apply_pairs_complete _ _ _ _ H (dest ++ rk) (dest ++ rt ++ [i]) v1 v2); try assumption.
+  apply em_pairs_in. eexists. split; [exact Hent | exact Htg].
+Qed.
+
+Theorem apply_rebased_sound : forall cs em origin dest eqs eqs',
+  apply_map cs (rebase_map em origin dest) eqs = FOk eqs' ->
+  (forall x y, has_pair eqs x y -> has_pair eqs' x y) /\
+  forall x y, has_pair eqs' x y -> has_pair eqs x y \/
+    exists k ts t t2 v1 v2, In (k, ts) em /\ In t ts /\ rebase_target t origin dest = Some t2 /\
+      var_located_at cs (rebase_stack k origin dest) = LVar v1 /\ var_located_at cs t2 = LVar v2 /\
+      oids_pair_eq x y (v_oid v1) (v_oid v2).
+Proof.
+  intros cs em origin dest eqs eqs' H. rewrite apply_map_pairs in H. destruct (apply_pairs_sound _ _ _ _ H) as [Hm Hs].
+  split; [exact Hm|]. intros x y Hp. destruct (Hs _ _ Hp) as [Hl|[k2 [t2 [v1 [v2 [Hin [E1 [E2 Ho]]]]]]]]; [left; exact Hl|].
+  right. apply em_pairs_in in Hin. destruct Hin as [ts2 [Hent Ht2]].
+  destruct (rebase_map_sound _ _ _ _ _ Hent) as [k [ts [Hin [Hk [Hts _]]]]]. subst k2 ts2.
+  apply rebase_targets_in in Ht2. destruct Ht2 as [t [Ht Hr]].
+  exists k, ts, t, t2, v1, v2. repeat split; assumption.
+Qed.
+
+(* ---- copyRebasedEquivalenceIds (the candidate repair fx_ids, and the id pass of Model::clone) *)
+
+Definition src_ids (src : model) (k t : path) : string * string :=
+  match var_located_at (m_comps src) k, var_located_at (m_comps src) t with
+  | LVar v, LVar w => ids_of (v_oid v) (v_oid w) (m_eqs src)
+  | _, _ => ("", "")
+  end.
+
+Definition ids_step (src : model) (origin dest : path) (cs : list comp) (acc : fres (list eqv)) (kt : path * path) : fres (list eqv) :=
+  copy_ids_one src origin dest cs (fst kt) (snd kt) acc.
+
+Lemma copy_ids_pairs : forall src origin dest cs em eqs,
+  copy_ids src origin dest cs em eqs = fold_left (ids_step src origin dest cs) (em_pairs em) (FOk eqs).
+Proof.
+  intros src origin dest cs em eqs. unfold copy_ids. generalize (FOk eqs) as acc.
+  induction em as [|[k ts] r IH]; intros acc; cbn [fold_left em_pairs flat_map]; [reflexivity|].
+  rewrite fold_left_app. cbn [fst snd].
+  assert (E : forall ts acc, fold_left (fun acc t => copy_ids_one src origin dest cs k t acc) ts acc
+                             = fold_left (ids_step src origin dest cs) (map (fun t => (k, t)) ts) acc).
+  { induction ts0 as [|t r0 IH0]; intros acc0; cbn; [reflexivity | apply IH0]. }
+  rewrite <- E. apply IH.
+Qed.
+
+Lemma ids_step_error : forall src origin dest cs l (acc : fres (list eqv)), (forall x, acc <> FOk x) ->
+  forall x, fold_left (ids_step src origin dest cs) l acc <> FOk x.
+Proof.
+  intros src origin dest cs l. induction l as [|kt r IH]; intros acc H x; cbn [fold_left]; [apply H|].
+  apply IH. intros y. unfold ids_step, copy_ids_one. destruct acc; cbn [fbind]; try discriminate. exfalso. apply (H a). reflexivity.
+Qed.
+
+(* an entry of the result is an entry of the input or carries the ids the source model stores for a recorded pair that is
+   located at the same two variables *)
+Definition ids_from (src : model) (origin dest : path) (cs : list comp) (L : list (path * path)) (eqs0 : list eqv) (e : eqv) : Prop :=
+  In e eqs0 \/
+  exists k t t2 v1 v2, In (k, t) L /\ rebase_target t origin dest = Some t2 /\
+    var_located_at cs (rebase_stack k origin dest) = LVar v1 /\ var_located_at cs t2 = LVar v2 /\
+    pair_is (v_oid v1) (v_oid v2) e = true /\ (e_map e, e_conn e) = src_ids src k t.
+
+Lemma copy_ids_one_step : forall src origin dest cs k t cur nxt,
+  copy_ids_one src origin dest cs k t (FOk cur) = FOk nxt ->
+  nxt = cur \/
+  exists t2 rv re, rebase_target t origin dest = Some t2 /\
+    var_located_at cs (rebase_stack k origin dest) = LVar rv /\ var_located_at cs t2 = LVar re /\
+    nxt = add_equivalence (v_oid rv) (v_oid re) (Some (src_ids src k t)) cur.
+Proof.
+  intros src origin dest cs k t cur nxt H. unfold copy_ids_one in H. cbn [fbind] in H. unfold src_ids.
+  destruct (var_located_at (m_comps src) k) as [| |sv] eqn:S1; [discriminate| |];
+  (destruct (var_located_at (m_comps src) t) as [| |sw] eqn:S2; [discriminate| |]);
+  (destruct (rebase_target t origin dest) as [t2|] eqn:Rt; [|left; congruence]);
+  (destruct (var_located_at cs (rebase_stack k origin dest)) as [| |rv] eqn:D1; [discriminate| |]);
+  (destruct (var_located_at cs t2) as [| |re] eqn:D2; [discriminate| |]);
+  try (left; congruence);
+  (right; exists t2, rv, re; split; [reflexivity|]; split; [reflexivity|]; split; [exact D2|]; congruence).
+Qed.
+
+Lemma ids_step_inv : forall src origin dest cs L eqs0 l cur eqs',
+  incl l L -> (forall e, In e cur -> ids_from src origin dest cs L eqs0 e) ->
+  fold_left (ids_step src origin dest cs) l (FOk cur) = FOk eqs' ->
+  forall e, In e eqs' -> ids_from src origin dest cs L eqs0 e.
+Proof.
+  intros src origin dest cs L eqs0 l. induction l as [|[k t] r IH]; intros cur eqs' Hincl Hinv H; cbn [fold_left] in H.
+  - inversion H; subst. exact Hinv.
+  - assert (HinL : In (k, t) L) by (apply Hincl; left; reflexivity).
+    assert (Hincl' : incl r L) by (intros x Hx; apply Hincl; right; exact Hx).
+    destruct (ids_step src origin dest cs (FOk cur) (k, t)) as [nxt| | |] eqn:Es;
+      try (exfalso; eapply ids_step_error; [|exact H]; intros x; discriminate).
+    apply (IH nxt eqs' Hincl'); [|exact H].
+    unfold ids_step in Es. cbn [fst snd] in Es.
+    destruct (copy_ids_one_step _ _ _ _ _ _ _ _ Es) as [E|[t2 [rv [re [Rt [D1 [D2 E]]]]]]]; [subst nxt; exact Hinv|].
+    intros e Hin. subst nxt.
+    destruct (Nat.eq_dec (v_oid rv) (v_oid re)) as [Heq|Hne].
+    + unfold add_equivalence in Hin. rewrite Heq, Nat.eqb_refl in Hin. apply Hinv. exact Hin.
+    + destruct (pair_is (v_oid rv) (v_oid re) e) eqn:Ep.
+      * right. exists k, t, t2, rv, re. repeat (split; [assumption|]).
+        destruct (src_ids src k t) as [mi ci] eqn:Ei.
+        destruct (add_equivalence_ids _ _ mi ci _ _ Hne Hin Ep) as [Em Ec]. rewrite Em, Ec. reflexivity.
+      * apply Hinv. eapply add_equivalence_other; [exact Hin | exact Ep].
+Qed.
+
+(* copy_ids keeps every equivalence and gives an equivalence the ids of a recorded source pair located at its variables *)
+Theorem copy_ids_result : forall src origin dest cs em eqs eqs',
+  copy_ids src origin dest cs em eqs = FOk eqs' ->
+  forall e, In e eqs' -> ids_from src origin dest cs (em_pairs em) eqs e.
+Proof.
+  intros src origin dest cs em eqs eqs' H. rewrite copy_ids_pairs in H.
+  apply (ids_step_inv src origin dest cs (em_pairs em) eqs (em_pairs em) eqs eqs' (incl_refl _)); [|exact H].
+  intros e Hin. left. exact Hin.
+Qed.
+
+(* ================================================================================== usages of a units name *)
+
+Definition subst_name (old new u : string) : string := if String.eqb u old then new else u.
+Definition subst_opt (old : string) (new : option string) (u : option string) : option string :=
+  match u with Some x => if String.eqb x old then new else Some x | None => None end.
+
+(* the units of all variables of a tree, components in pre-order *)
+Fixpoint comp_var_units (c : comp) : list (option string) :=
+  match c with Comp _ _ _ _ vars kids => map v_units vars ++ flat_map comp_var_units kids end.
+
+(* the units attributes of all cn elements below a node / in a tree *)
+Fixpoint mx_cn_units (n : mx) : list string :=
+  match n with MX _ _ _ kids => flat_map (fun k => (if is_cn k then [mx_units k] else []) ++ mx_cn_units k) kids end.
+Fixpoint comp_cn_units (c : comp) : list string :=
+  match c with Comp _ _ _ math _ kids => flat_map mx_cn_units math ++ flat_map comp_cn_units kids end.
+
+Lemma rename_var_units_spec : forall old new c,
+  comp_var_units (rename_var_units old new c) = map (subst_opt old new) (comp_var_units c).
+Proof.
+  intros old new. fix IH 1. intros [o n i m vars kids]. cbn [rename_var_units comp_var_units].
+  rewrite map_app. f_equal.
+  - rewrite !map_map. apply map_ext. intros v. unfold subst_opt. destruct (v_units v) as [u|] eqn:E; [|exact E].
+    destruct (String.eqb u old); [reflexivity | exact E].
+  - induction kids as [|k r IHr]; [reflexivity|]. cbn [map flat_map]. rewrite map_app, IH, IHr. reflexivity.
+Qed.
+
+Definition fix_cn (old new : string) (n : mx) : mx :=
+  match n with MX a' u' t' k' => if String.eqb a' "cn" && String.eqb u' old then MX a' new t' k' else MX a' u' t' k' end.
+
+Lemma mx_rename_unfold : forall old new a u t kids,
+  mx_rename old new (MX a u t kids) = MX a u t (map (fun k => fix_cn old new (mx_rename old new k)) kids).
+Proof. reflexivity. Qed.
+
+Definition cn_here (k : mx) : list string := if is_cn k then [mx_units k] else [].
+
+Lemma mx_cn_units_unfold : forall a u t kids, mx_cn_units (MX a u t kids) = flat_map (fun k => cn_here k ++ mx_cn_units k) kids.
+Proof. reflexivity. Qed.
+
+Lemma fix_cn_here : forall old new k, cn_here (fix_cn old new k) = map (subst_name old new) (cn_here k).
+Proof.
+  intros old new [a u t kk]. unfold fix_cn, cn_here, is_cn, mx_name, mx_units, subst_name.
+  destruct (String.eqb a "cn") eqn:Ea; cbn [andb].
+  - destruct (String.eqb u old) eqn:Eu; cbn; rewrite Ea; cbn; rewrite ?Eu; reflexivity.
+  - cbn. rewrite Ea. reflexivity.
+Qed.
+
+Lemma fix_cn_below : forall old new k, mx_cn_units (fix_cn old new k) = mx_cn_units k.
+Proof. intros old new [a u t kk]. unfold fix_cn. destruct (String.eqb a "cn" && String.eqb u old); reflexivity. Qed.
+
+Lemma mx_rename_here : forall old new k, cn_here (mx_rename old new k) = cn_here k.
+Proof. intros old new [a u t kk]. reflexivity. Qed.
+
+Lemma mx_rename_spec : forall old new n, mx_cn_units (mx_rename old new n) = map (subst_name old new) (mx_cn_units n).
+Proof.
+  intros old new. fix IH 1. intros [a u t kids]. rewrite mx_rename_unfold, !mx_cn_units_unfold.
+  induction kids as [|k r IHr]; [reflexivity|]. cbn [map flat_map]. rewrite !map_app. rewrite IHr.
+  rewrite fix_cn_here, fix_cn_below, mx_rename_here, IH. reflexivity.
+Qed.
+
+Lemma mx_mentions_false : forall old n, mx_mentions old n = false -> forall new, map (subst_name old new) (mx_cn_units n) = mx_cn_units n.
+Proof.
+  intros old. fix IH 1. intros [a u t kids] H new. rewrite mx_cn_units_unfold. cbn [mx_mentions] in H.
+  induction kids as [|k r IHr]; [reflexivity|]. cbn [existsb] in H. apply orb_false_iff in H. destruct H as [Hk Hr].
+  apply orb_false_iff in Hk. destruct Hk as [Hk1 Hk2].
+  cbn [flat_map]. rewrite !map_app. rewrite (IHr Hr), (IH k Hk2). f_equal.
+  unfold cn_here. destruct (is_cn k) eqn:Ec; [|reflexivity]. cbn [andb] in Hk1. cbn [map]. unfold subst_name. rewrite Hk1. reflexivity.
+Qed.
+
+Lemma math_rename_spec : forall old new roots, forallb is_math roots = true ->
+  flat_map mx_cn_units (math_rename old new roots) = map (subst_name old new) (flat_map mx_cn_units roots).
+Proof.
+  intros old new roots Hm. unfold math_rename.
+  destruct (negb (String.eqb old new)) eqn:En; cbn [andb].
+  - destruct (existsb (fun r => is_math r && mx_mentions old r) roots) eqn:Ex.
+    + assert (Hf : filter is_math roots = roots).
+      { clear Ex. induction roots as [|r rs IH]; [reflexivity|]. cbn [forallb] in Hm. apply andb_true_iff in Hm. destruct Hm as [H1 H2].
+        cbn [filter]. rewrite H1, (IH H2). reflexivity. }
+      rewrite Hf. clear. induction roots as [|r rs IH]; [reflexivity|]. cbn [map flat_map]. rewrite map_app, mx_rename_spec, IH. reflexivity.
+    + induction roots as [|r rs IH]; [reflexivity|]. cbn [existsb] in Ex. apply orb_false_iff in Ex. destruct Ex as [E1 E2].
+      cbn [forallb] in Hm. apply andb_true_iff in Hm. destruct Hm as [H1 H2]. rewrite H1 in E1. cbn [andb] in E1.
+      cbn [flat_map]. rewrite map_app, (mx_mentions_false _ _ E1), <- (IH H2 E2). reflexivity.
+  - apply negb_false_iff in En. apply String.eqb_eq in En. subst new.
+    rewrite <- (map_id (flat_map mx_cn_units roots)) at 1. apply map_ext. intros u. unfold subst_name.
+    destruct (String.eqb u old) eqn:E; [apply String.eqb_eq in E; congruence | reflexivity].
+Qed.
+
+(* all math of the tree consists of <math> roots (what the parser produces) *)
+Fixpoint comp_math_ok (c : comp) : bool :=
+  match c with Comp _ _ _ math _ kids => forallb is_math math && forallb comp_math_ok kids end.
+
+Lemma rename_cn_deep_spec : forall old new c, comp_math_ok c = true ->
+  comp_cn_units (rename_cn_deep old new c) = map (subst_name old new) (comp_cn_units c).
+Proof.
+  intros old new. fix IH 1. intros [o n i m vars kids] H. cbn [comp_math_ok] in H. apply andb_true_iff in H. destruct H as [Hm Hk].
+  cbn [rename_cn_deep comp_cn_units]. rewrite map_app, math_rename_spec by exact Hm. f_equal.
+  induction kids as [|k r IHr]; [reflexivity|]. cbn [forallb] in Hk. apply andb_true_iff in Hk. destruct Hk as [H1 H2].
+  cbn [map flat_map]. rewrite map_app, (IH k H1), (IHr H2). reflexivity.
+Qed.
+
+Lemma rename_cn_deep_var_units : forall old new c, comp_var_units (rename_cn_deep old new c) = comp_var_units c.
+Proof.
+  intros old new. fix IH 1. intros [o n i m vars kids]. cbn [rename_cn_deep comp_var_units]. f_equal.
+  induction kids as [|k r IHr]; [reflexivity|]. cbn [map flat_map]. rewrite IH, IHr. reflexivity.
+Qed.
+
+Lemma rename_var_units_cn : forall old new c, comp_cn_units (rename_var_units old new c) = comp_cn_units c.
+Proof.
+  intros old new. fix IH 1. intros [o n i m vars kids]. cbn [rename_var_units comp_cn_units]. f_equal.
+  induction kids as [|k r IHr]; [reflexivity|]. cbn [map flat_map]. rewrite IH, IHr. reflexivity.
+Qed.
+
+(* rename_usages_consistent: with c2160f8 every reference to the old name -- the units of every variable and the units of
+   every cn, at every depth -- is rewritten, and nothing else *)
+Theorem rename_usages_consistent : forall fx old new c, fx_cndeep fx = true -> comp_math_ok c = true ->
+  comp_var_units (rename_usages fx old new true c) = map (subst_opt old (Some new)) (comp_var_units c) /\
+  comp_cn_units (rename_usages fx old new true c) = map (subst_name old new) (comp_cn_units c).
+Proof.
+  intros fx old new c Hfx Hm. unfold rename_usages. rewrite Hfx. split.
+  - rewrite rename_var_units_spec, rename_cn_deep_var_units. reflexivity.
+  - rewrite rename_var_units_cn, rename_cn_deep_spec by exact Hm. reflexivity.
+Qed.
+
+(* before c2160f8 the cn elements two levels below the component kept the old name *)
+Lemma rename_usages_consistent_refuted :
+  exists old new c, comp_math_ok c = true /\
+    comp_cn_units (rename_usages flat_unfixed old new true c) <> map (subst_name old new) (comp_cn_units c).
+Proof.
+  exists "u", "u_1",
+    (Comp (OFresh 0) "c" None [] []
+       [Comp (OFresh 0) "k1" None [] []
+          [Comp (OFresh 0) "k2" None [MX "math" "" "" [MX "apply" "" "" [MX "eq" "" "" []; MX "ci" "" "b" []; MX "cn" "u" "4" []]]] [] []]]).
+  split; [reflexivity|]. vm_compute. discriminate.
+Qed.
+
+(* ================================================================================== units transfer *)
+
+Lemma meu_some : forall libs T home n l t, models_equivalent_units libs T home n l = FOk (Some t) ->
+  exists u, In u l /\ u_name u = t /\ units_equivalent libs [T; home] 0 t 1 n = FOk true.
+Proof.
+  intros libs T home n l. induction l as [|x r IH]; intros t H; cbn [models_equivalent_units] in H; [discriminate|].
+  destruct (units_equivalent libs [T; home] 0 (u_name x) 1 n) as [b| | |] eqn:E; cbn [fbind] in H; try discriminate.
+  destruct b.
+  - inversion H; subst t. exists x. split; [left; reflexivity | split; [reflexivity | exact E]].
+  - destruct (IH _ H) as [u [Hin Hu]]. exists u. split; [right; exact Hin | exact Hu].
+Qed.
+
+Lemma meu_none : forall libs T home n l, models_equivalent_units libs T home n l = FOk None ->
+  forall u, In u l -> units_equivalent libs [T; home] 0 (u_name u) 1 n = FOk false.
+Proof.
+  intros libs T home n l. induction l as [|x r IH]; intros H u Hin; [destruct Hin|]. cbn [models_equivalent_units] in H.
+  destruct (units_equivalent libs [T; home] 0 (u_name x) 1 n) as [b| | |] eqn:E; cbn [fbind] in H; try discriminate.
+  destruct b; [discriminate|]. destruct Hin as [Hx|Hin]; [subst; exact E | apply (IH H _ Hin)].
+Qed.
+
+Lemma us_op_T : forall a b s, us_T (us_op a b s) = us_T s.
+Proof. intros a b s. unfold us_op. destruct (us_comp s); reflexivity. Qed.
+Lemma us_op_S : forall a b s, us_S (us_op a b s) = us_S s.
+Proof. intros a b s. unfold us_op. destruct (us_comp s); reflexivity. Qed.
+
+Lemma u_set_ref_name : forall i r u, u_name (u_set_ref i r u) = u_name u.
+Proof. intros i r u. unfold u_set_ref. destruct (nth_error (u_defs u) i); reflexivity. Qed.
+Lemma u_set_ref_imp : forall i r u, u_imp (u_set_ref i r u) = u_imp u.
+Proof. intros i r u. unfold u_set_ref. destruct (nth_error (u_defs u) i); reflexivity. Qed.
+Lemma u_set_ref_len : forall i r u, List.length (u_defs (u_set_ref i r u)) = List.length (u_defs u).
+Proof.
+  intros i r u. unfold u_set_ref. destruct (nth_error (u_defs u) i); [|reflexivity]. cbn.
+  generalize (u_defs u) as l. clear. intros l. revert i. induction l as [|x l IH]; intros [|i]; cbn; try reflexivity. rewrite IH. reflexivity.
+Qed.
+
+(* the transfer only appends to the target *)
+Definition grows (T T' : list units) : Prop := exists extra, T' = T ++ extra.
+
+Lemma grows_refl : forall T, grows T T.
+Proof. intros T. exists []. rewrite app_nil_r. reflexivity. Qed.
+Lemma grows_trans : forall A B C, grows A B -> grows B C -> grows A C.
+Proof. intros A B C [x Hx] [y Hy]. exists (x ++ y). subst. rewrite app_assoc. reflexivity. Qed.
+
+Lemma transfer_kids_grows : forall (rec : units -> ust -> fres transfer_result) fx,
+  (forall u s s' m c n, rec u s = FOk (s', m, c, n) -> grows (us_T s) (us_T s')) ->
+  forall k i u s u1 s1, transfer_kids rec fx k i u s = FOk (u1, s1) ->
+    grows (us_T s) (us_T s1) /\ u_name u1 = u_name u /\ u_imp u1 = u_imp u.
+Proof.
+  intros rec fx Hrec. induction k as [|k IH]; intros i u s u1 s1 H; cbn [transfer_kids] in H.
+  - inversion H; subst. split; [apply grows_refl | split; reflexivity].
+  - destruct (nth_error (u_defs u) i) as [d|]; [|inversion H; subst; split; [apply grows_refl | split; reflexivity]].
+    destruct (negb (str_is_empty (uc_ref d)) && negb (is_std_name (uc_ref d)) && has_units (uc_ref d) (us_S s)).
+    + destruct (find_units (uc_ref d) (us_S s)) as [src|]; [|discriminate].
+      destruct (clone_units src (us_st s)) as [child st1] eqn:Ec.
+      destruct (rec child (us_with_st st1 s)) as [[[[s2 mv] ch] fn]| | |] eqn:Er; cbn [fbind] in H; try discriminate.
+      destruct (IH _ _ _ _ _ H) as [Hg [Hn Hi]]. split.
+      * eapply grows_trans; [apply (Hrec _ _ _ _ _ _ Er)|]. exact Hg.
+      * rewrite Hn, Hi, u_set_ref_name, u_set_ref_imp. split; reflexivity.
+    + apply (IH _ _ _ _ _ H).
+Qed.
+
+Lemma transfer_grows : forall fuel fx libs orphan u s s' m c n,
+  transfer fuel fx libs orphan u s = FOk (s', m, c, n) -> grows (us_T s) (us_T s').
+Proof.
+  induction fuel as [|f IH]; intros fx libs orphan u s s' m c n H; cbn [transfer] in H; [discriminate|].
+  destruct (models_equivalent_units libs (us_T s) (if orphan then [u] else us_S s) (u_name u) (us_T s)) as [tg| | |];
+    cbn [fbind] in H; try discriminate.
+  destruct tg as [tname|].
+  - destruct (String.eqb tname (u_name u)); inversion H; subst; [apply grows_refl | rewrite us_op_T; apply grows_refl].
+  - destruct (transfer_kids (transfer f fx libs true) fx (List.length (u_defs u)) 0 u s) as [[u1 s1]| | |] eqn:Ek;
+      cbn [fbind] in H; try discriminate.
+    destruct (transfer_kids_grows _ fx (fun u s s' m c n => IH fx libs true u s s' m c n) _ _ _ _ _ _ Ek) as [Hg _].
+    destruct (free_name (map u_name (us_T s1)) (u_name u1)) as [newname|]; [|discriminate].
+    eapply grows_trans; [exact Hg|].
+    destruct (negb (String.eqb (u_name u1) newname)); inversion H; subst; rewrite ?us_op_T;
+      destruct orphan; cbn; eexists; reflexivity.
+Qed.
+
+(* transfer_reuse_or_fresh: a transferred units is re-used exactly when the target has an equivalent units (the first one, in
+   the target's order, and then nothing is added); otherwise it is appended to the target under a name no units of the target
+   has, which is its own name unless that is taken (then name_k); changedNames records the renaming *)
+Theorem transfer_reuse_or_fresh : forall fuel fx libs orphan u s s' moved changed fname,
+  transfer fuel fx libs orphan u s = FOk (s', moved, changed, fname) ->
+  let home := if orphan then [u] else us_S s in
+  (moved = false /\ us_T s' = us_T s /\ us_S s' = us_S s /\ fname = u_name u /\
+   exists t, In t (us_T s) /\ units_equivalent libs [us_T s; home] 0 (u_name t) 1 (u_name u) = FOk true /\
+     ((u_name t = u_name u /\ changed = []) \/ (u_name t <> u_name u /\ changed = [(u_name u, u_name t)])))
+  \/
+  (moved = true /\
+   (forall t, In t (us_T s) -> units_equivalent libs [us_T s; home] 0 (u_name t) 1 (u_name u) = FOk false) /\
+   exists T1 u', grows (us_T s) T1 /\ us_T s' = T1 ++ [u'] /\ u_name u' = fname /\ u_imp u' = u_imp u /\
+     ~ In fname (map u_name T1) /\
+     ((fname = u_name u /\ changed = []) \/
+      (fname <> u_name u /\ In (u_name u) (map u_name T1) /\ changed = [(u_name u, fname)] /\ exists k, fname = candidate (u_name u) k))).
+Proof.
+  intros [|f] fx libs orphan u s s' moved changed fname H home; cbn [transfer] in H; [discriminate|].
+  fold home in H.
+  destruct (models_equivalent_units libs (us_T s) home (u_name u) (us_T s)) as [tg| | |] eqn:Em; cbn [fbind] in H; try discriminate.
+  destruct tg as [tname|].
+  - left. destruct (meu_some _ _ _ _ _ _ Em) as [t [Hin [Hn He]]]. subst tname.
+    destruct (String.eqb (u_name t) (u_name u)) eqn:En; inversion H; subst.
+    + apply String.eqb_eq in En. repeat split; try reflexivity. exists t. split; [exact Hin|]. split; [exact He|]. left. split; [exact En | reflexivity].
+    + apply String.eqb_neq in En. rewrite us_op_T, us_op_S. repeat split; try reflexivity.
+      exists t. split; [exact Hin|]. split; [exact He|]. right. split; [exact En | reflexivity].
+  - right. pose proof (meu_none _ _ _ _ _ Em) as Hnone.
+    destruct (transfer_kids (transfer f fx libs true) fx (List.length (u_defs u)) 0 u s) as [[u1 s1]| | |] eqn:Ek;
+      cbn [fbind] in H; try discriminate.
+    destruct (transfer_kids_grows _ fx (fun u s s' m c n => transfer_grows f fx libs true u s s' m c n) _ _ _ _ _ _ Ek) as [Hg [Hn1 Hi1]].
+    destruct (free_name (map u_name (us_T s1)) (u_name u1)) as [newname|] eqn:Ef; [|discriminate].
+    assert (Hfree : ~ In newname (map u_name (us_T s1))).
+    { unfold free_name in Ef. destruct (mem_str (u_name u1) (map u_name (us_T s1))) eqn:Emem.
+      - apply (find_free_some _ _ _ _ _ Ef).
+      - inversion Ef; subst. apply mem_str_false. exact Emem. }
+    assert (Hshape : (newname = u_name u1 /\ mem_str (u_name u1) (map u_name (us_T s1)) = false) \/
+                     (mem_str (u_name u1) (map u_name (us_T s1)) = true /\ exists k, newname = candidate (u_name u1) k)).
+    { unfold free_name in Ef. destruct (mem_str (u_name u1) (map u_name (us_T s1))) eqn:Emem.
+      - right. split; [reflexivity|]. destruct (find_free_some _ _ _ _ _ Ef) as [_ [j [_ [Hc _]]]]. exists (1 + j). exact Hc.
+      - left. inversion Ef. split; reflexivity. }
+    destruct (negb (String.eqb (u_name u1) newname)) eqn:Er.
+    + inversion H; subst s' moved changed fname. apply negb_true_iff in Er. apply String.eqb_neq in Er.
+      split; [reflexivity|]. split; [exact Hnone|].
+      exists (us_T s1), (u_set_name newname u1). split; [exact Hg|]. split.
+      * rewrite us_op_T. destruct orphan; reflexivity.
+      * split; [reflexivity|]. split; [cbn; exact Hi1|]. split; [exact Hfree|].
+        right. rewrite <- Hn1. destruct Hshape as [[E _]|[Hm Hk]]; [congruence|].
+        split; [congruence|]. split; [apply mem_str_in; exact Hm|]. split; [reflexivity | exact Hk].
+    + inversion H; subst s' moved changed fname. apply negb_false_iff in Er. apply String.eqb_eq in Er.
+      split; [reflexivity|]. split; [exact Hnone|].
+      exists (us_T s1), (u_set_name newname u1). split; [exact Hg|]. split.
+      * destruct orphan; reflexivity.
+      * split; [reflexivity|]. split; [cbn; exact Hi1|]. split; [exact Hfree|].
+        left. split; [congruence | reflexivity].
+Qed.
+
+(* ================================================================================== a copy of first-level units is equivalent *)
+From LC Require UnitsProofs.
+
+Definition std_only (l : list unit_child) : Prop :=
+  l <> [] /\ forall c, In c l -> is_std_name (uc_ref c) = true /\ convert_prefix (uc_prefix c) <> None.
+
+Lemma fold_opt_std : forall (fx : UnitsDefs.fixes) (defined : bool) f w mi l h, (forall c, In c l -> is_std_name (uc_ref c) = true) ->
+  fold_opt (fun c h => if is_std_name (uc_ref c) then Ok (Some h)
+                       else match lookup w mi (uc_ref c) with
+                            | Some _ => perform_test fx defined f w h mi (uc_ref c)
+                            | None => Ok (if defined then None else Some h)
+                            end) l h = Ok (Some h).
+Proof.
+  intros fx defined f w mi l. induction l as [|c r IH]; intros h H; cbn [fold_opt]; [reflexivity|].
+  rewrite (H c (or_introl eq_refl)). apply IH. intros c' Hc. apply H. right. exact Hc.
+Qed.
+
+Lemma std_only_defined : forall fx f w mi n l, lookup w mi n = Some (Defs l) -> std_only l ->
+  is_defined fx (S f) w mi n = Ok true.
+Proof.
+  intros fx f w mi n l Hl [_ Hs]. unfold is_defined. cbn [perform_test]. rewrite Hl.
+  rewrite fold_opt_std; [reflexivity|]. intros c Hc. apply (Hs c Hc).
+Qed.
+
+Lemma fold_res_std : forall fx f w mi e l acc, (forall c, In c l -> is_std_name (uc_ref c) = true) ->
+  fold_res (fun c a => if is_std_name (uc_ref c) then Ok (add_std (uc_ref c) (uc_exp c * e) a)
+                       else match lookup w mi (uc_ref c) with
+                            | None => Crash
+                            | Some _ => umap_go fx f w mi (uc_ref c) (uc_exp c * e) a
+                            end) l acc
+  = Ok (fold_left (fun a c => add_std (uc_ref c) (uc_exp c * e) a) l acc).
+Proof.
+  intros fx f w mi e l. induction l as [|c r IH]; intros acc H; cbn [fold_res fold_left]; [reflexivity|].
+  rewrite (H c (or_introl eq_refl)). apply IH. intros c' Hc. apply H. right. exact Hc.
+Qed.
+
+Lemma umap_go_S : forall fx f' w mi name e acc, umap_go fx (S f') w mi name e acc =
+    match is_base (S f') w mi name with
+    | Ok true => Ok (madd name e acc)
+    | Ok false =>
+        match lookup w mi name with
+        | None => Crash
+        | Some (Import mj r) =>
+            if is_std_name name then Ok (add_std name e acc)
+            else
+            match lookup w mj r with
+            | None => Crash
+            | Some _ => umap_go fx f' w mj r (if fx_import fx then e else 1) acc
+            end
+        | Some (Defs l) =>
+            if (Nat.eqb (List.length l) 0) && is_std_name name then Ok (add_std name e acc)
+            else
+              fold_res (fun c a =>
+                if is_std_name (uc_ref c) then Ok (add_std (uc_ref c) (uc_exp c * e) a)
+                else match lookup w mi (uc_ref c) with
+                     | None => Crash
+                     | Some _ => umap_go fx f' w mi (uc_ref c) (uc_exp c * e) a
+                     end) l acc
+        end
+    | OutOfFuel => OutOfFuel
+    | Crash => Crash
+    end.
+Proof. reflexivity. Qed.
+
+Lemma std_only_map : forall fx f w mi n l, lookup w mi n = Some (Defs l) -> std_only l ->
+  define_units_map fx (S (S f)) w (mi, n) = Ok (clean_map (fold_left (fun a c => add_std (uc_ref c) (uc_exp c * 1) a) l [])).
+Proof.
+  intros fx f w mi n l Hl [Hne Hs]. unfold define_units_map. cbn [fst snd]. rewrite umap_go_S.
+  unfold is_base. cbn [is_base_h]. rewrite Hl.
+  destruct l as [|c0 r]; [congruence|]. cbn [List.length Nat.eqb andb].
+  rewrite fold_res_std; [reflexivity|]. intros c Hc. apply (Hs c Hc).
+Qed.
+
+Definition std_scale (l : list unit_child) : Q :=
+  fold_left (fun s c => match convert_prefix (uc_prefix c) with
+                        | Some p => (s + (uc_mult c + std_mult (uc_ref c) * uc_exp c + inject_Z p))%Q
+                        | None => s
+                        end) l 0%Q.
+
+Lemma fold_opt_mult_std : forall fx f w mi l (s : Q),
+  (forall c, In c l -> is_std_name (uc_ref c) = true /\ convert_prefix (uc_prefix c) <> None) ->
+  fold_opt (fun c s =>
+            match convert_prefix (uc_prefix c) with
+            | None => Ok None
+            | Some p =>
+                if is_std_name (uc_ref c)
+                then Ok (Some (s + (uc_mult c + std_mult (uc_ref c) * uc_exp c + inject_Z p))%Q)
+                else match lookup w mi (uc_ref c) with
+                     | None => Ok None
+                     | Some _ => match mult_go fx f w mi (uc_ref c) with
+                                 | Ok (Some b) => Ok (Some (s + (uc_mult c + (0 + b * 1) * uc_exp c + inject_Z p))%Q)
+                                 | x => x
+                                 end
+                     end
+            end) l s
+  = Ok (Some (fold_left (fun s c => match convert_prefix (uc_prefix c) with
+                                    | Some p => (s + (uc_mult c + std_mult (uc_ref c) * uc_exp c + inject_Z p))%Q
+                                    | None => s
+                                    end) l s)).
+Proof.
+  intros fx f w mi l. induction l as [|c l' IH]; intros s Hs; cbn [fold_opt fold_left]; [reflexivity|].
+  destruct (Hs c (or_introl eq_refl)) as [Hstd Hp].
+  destruct (convert_prefix (uc_prefix c)) as [p|]; [|congruence]. rewrite Hstd.
+  apply IH. intros c' Hc. apply Hs. right. exact Hc.
+Qed.
+
+Lemma std_only_mult : forall fx f w mi n l, lookup w mi n = Some (Defs l) -> std_only l ->
+  mult_go fx (S f) w mi n = Ok (Some (std_scale l)).
+Proof.
+  intros fx f w mi n l Hl [Hne Hs]. cbn [mult_go]. rewrite Hl.
+  destruct l as [|c0 r] eqn:El; [congruence|]. rewrite <- El in *.
+  replace (Nat.eqb (List.length l) 0) with false by (rewrite El; reflexivity).
+  unfold std_scale. apply fold_opt_mult_std. exact Hs.
+Qed.
+
+(* two units with the same standard-only children are equivalent, whatever their names and models *)
+Lemma std_only_equivalent : forall fx f w ia na ib nb l,
+  lookup w ia na = Some (Defs l) -> lookup w ib nb = Some (Defs l) -> std_only l ->
+  equivalent fx (S (S f)) w (Some (ia, na)) (Some (ib, nb)) = Ok true.
+Proof.
+  intros fx f w ia na ib nb l Ha Hb Hs.
+  apply UnitsProofs.equivalent_iff.
+  pose proof (std_only_defined fx (S f) w ia na l Ha Hs) as Da.
+  pose proof (std_only_defined fx (S f) w ib nb l Hb Hs) as Db.
+  pose proof (std_only_map fx f w ia na l Ha Hs) as Ma.
+  pose proof (std_only_map fx f w ib nb l Hb Hs) as Mb.
+  assert (Hc : compatible fx (S (S f)) w (Some (ia, na)) (Some (ib, nb)) = Ok true).
+  { apply (UnitsProofs.compatible_iff_same_maps fx (S (S f)) w (ia, na) (ib, nb) _ _ Da Db Ma Mb). intros k. reflexivity. }
+  split; [exact Hc|].
+  unfold scaling_factor. rewrite Hc. cbn [fst snd].
+  rewrite (std_only_mult fx (S f) w ia na l Ha Hs), (std_only_mult fx (S f) w ib nb l Hb Hs).
+  eexists. split; [reflexivity|]. ring.
+Qed.
+
+Lemma transfer_kids_std : forall rec fx k i u s, (forall c, In c (u_defs u) -> is_std_name (uc_ref c) = true) ->
+  transfer_kids rec fx k i u s = FOk (u, s).
+Proof.
+  intros rec fx. induction k as [|k IH]; intros i u s H; cbn [transfer_kids]; [reflexivity|].
+  destruct (nth_error (u_defs u) i) as [d|] eqn:E; [|reflexivity].
+  rewrite (H d (nth_error_In _ _ E)). rewrite andb_false_r. cbn [andb]. apply IH. exact H.
+Qed.
+
+Lemma assoc_env_of : forall sh us n, assoc n (env_of sh us) =
+  match find_units n us with
+  | Some u => Some (match u_imp u with Some i => Import (sh + i_lib i) (i_ref i) | None => Defs (u_defs u) end)
+  | None => None
+  end.
+Proof.
+  intros sh us n. induction us as [|u r IH]; cbn [env_of map assoc find_units]; [reflexivity|].
+  rewrite String.eqb_sym. destruct (String.eqb (u_name u) n); [reflexivity|]. exact IH.
+Qed.
+
+Lemma find_units_app_new : forall n T u, ~ In n (map u_name T) -> u_name u = n -> find_units n (T ++ [u]) = Some u.
+Proof.
+  intros n T u. induction T as [|x r IH]; intros Hn Hu; cbn [app find_units].
+  - rewrite Hu, String.eqb_refl. reflexivity.
+  - destruct (String.eqb (u_name x) n) eqn:E.
+    + apply String.eqb_eq in E. exfalso. apply Hn. left. exact E.
+    + apply IH; [|exact Hu]. intros Hin. apply Hn. right. exact Hin.
+Qed.
+
+Lemma world_size_ge : forall (w : world) a, (a <= fold_left (fun n e => (n + List.length e)%nat) w a)%nat.
+Proof. induction w as [|e r IH]; intros a; cbn [fold_left]; [lia|]. specialize (IH (a + List.length e)%nat). lia. Qed.
+
+Lemma fuel_for_two : forall (e1 e2 : env) (rest : world), e1 <> [] -> e2 <> [] -> exists f', fuel_for (e1 :: e2 :: rest) = S (S f').
+Proof.
+  intros e1 e2 rest H1 H2. unfold fuel_for, world_size. cbn [fold_left].
+  pose proof (world_size_ge rest (0 + List.length e1 + List.length e2)) as Hge.
+  destruct e1 as [|x1 r1]; [congruence|]. destruct e2 as [|x2 r2]; [congruence|]. cbn [List.length] in *.
+  destruct (fold_left (fun n e => (n + List.length e)%nat) rest (0 + S (List.length r1) + S (List.length r2))%nat) as [|k] eqn:E; [lia|].
+  exists k. reflexivity.
+Qed.
+
+(* transfer_preserves_meaning_partial: for a units over standard units only (not a user-defined base unit), the name its
+   usages carry after the transfer denotes, in the target model, units equivalent to the original *)
+Theorem transfer_preserves_meaning_partial : forall fuel fx libs orphan u s s' moved changed fname,
+  transfer fuel fx libs orphan u s = FOk (s', moved, changed, fname) ->
+  u_imp u = None -> std_only (u_defs u) ->
+  (orphan = false -> find_units (u_name u) (us_S s) = Some u) ->
+  let home := if orphan then [u] else us_S s in
+  let usage_name := match changed with [(_, n)] => n | _ => u_name u end in
+  units_equivalent libs [us_T s'; home] 0 usage_name 1 (u_name u) = FOk true.
+Proof.
+  intros fuel fx libs orphan u s s' moved changed fname H Himp Hstd Hhome home usage_name.
+  assert (Hh : find_units (u_name u) home = Some u).
+  { unfold home. destruct orphan; [cbn; rewrite String.eqb_refl; reflexivity | apply Hhome; reflexivity]. }
+  destruct (transfer_reuse_or_fresh _ _ _ _ _ _ _ _ _ _ H) as [[Hm [HT [_ [_ [t [Hin [He Hc]]]]]]]|[Hm [_ _]]].
+  - fold home in He. rewrite HT. unfold usage_name.
+    destruct Hc as [[En Ec]|[En Ec]]; rewrite Ec; [rewrite <- En at 1|]; exact He.
+  - (* added: redo the computation, the children loop does nothing *)
+    destruct fuel as [|f]; cbn [transfer] in H; [discriminate|]. fold home in H.
+    destruct (models_equivalent_units libs (us_T s) home (u_name u) (us_T s)) as [tg| | |]; cbn [fbind] in H; try discriminate.
+    destruct tg as [tname|]; [destruct (String.eqb tname (u_name u)); inversion H; subst; discriminate|].
+    rewrite transfer_kids_std in H by (intros c Hc; apply (proj2 Hstd c Hc)). cbn [fbind] in H.
+    destruct (free_name (map u_name (us_T s)) (u_name u)) as [newname|] eqn:Ef; [|discriminate].
+    assert (Hfree : ~ In newname (map u_name (us_T s))).
+    { destruct (free_name_total (map u_name (us_T s)) (u_name u)) as [c [Hc1 Hc2]]. congruence. }
+    assert (HT : us_T s' = us_T s ++ [u_set_name newname u] /\ usage_name = newname).
+    { unfold usage_name. destruct (negb (String.eqb (u_name u) newname)) eqn:Er; inversion H; subst; rewrite ?us_op_T.
+      - split; [destruct orphan; reflexivity | reflexivity].
+      - apply negb_false_iff in Er. apply String.eqb_eq in Er. split; [destruct orphan; reflexivity | exact Er]. }
+    destruct HT as [HT Hun]. rewrite HT, Hun.
+    unfold units_equivalent. set (w := mk_world [us_T s ++ [u_set_name newname u]; home] libs).
+    assert (Hf : exists f', fuel_for w = S (S f')).
+    { unfold w, mk_world. cbn [map app]. apply fuel_for_two.
+      - unfold env_of. destruct (us_T s); discriminate.
+      - unfold env_of. destruct home; [discriminate | discriminate]. }
+    destruct Hf as [f' Hf]. rewrite Hf.
+    rewrite (std_only_equivalent _ f' w 0 newname 1 (u_name u) (u_defs u)); [reflexivity| | |exact Hstd].
+    + unfold lookup, w, mk_world. cbn [map app nth_error]. rewrite assoc_env_of.
+      rewrite (find_units_app_new newname (us_T s) (u_set_name newname u) Hfree eq_refl). cbn. rewrite Himp. reflexivity.
+    + unfold lookup, w, mk_world. cbn [map app nth_error]. rewrite assoc_env_of, Hh, Himp. reflexivity.
+Qed.
+
+(* ================================================================================== the units claim at full strength is false *)
+(* C06-units-name-capture.  Importer: units mm = ampere.  Imported model: units mm = second, u = ampere, w = kilo u; component c
+   with x in u and y in w.  u is recognised as equivalent to the importer's mm, and that NAME is written into w and into the
+   usages, where it is then read as the imported model's mm: x ends up in mm_1 = second. *)
+Definition wit_uc (r p : string) (e m : Z) : unit_child := {| uc_ref := r; uc_prefix := p; uc_exp := inject_Z e; uc_mult := inject_Z m |}.
+Definition wit_var (o : nat) (n u i : string) : variable :=
+  {| v_oid := o; v_name := n; v_units := Some u; v_init := i; v_iface := "public_and_private" |}.
+Definition wit_lib : model :=
+  {| m_own := OLib 0; m_name := "m1";
+     m_units := [ {| u_own := OLib 0; u_name := "mm"; u_imp := None; u_defs := [wit_uc "second" "" 1 0] |};
+                  {| u_own := OLib 0; u_name := "u"; u_imp := None; u_defs := [wit_uc "ampere" "" 1 0] |};
+                  {| u_own := OLib 0; u_name := "w"; u_imp := None; u_defs := [wit_uc "u" "kilo" 1 0] |} ];
+     m_comps := [Comp (OLib 0) "c" None [] [wit_var 10 "x" "u" "2"; wit_var 11 "y" "w" "3"] []]; m_eqs := [] |}.
+Definition wit_origin : model :=
+  {| m_own := OOrigin; m_name := "m0";
+     m_units := [ {| u_own := OOrigin; u_name := "mm"; u_imp := None; u_defs := [wit_uc "ampere" "" 1 0] |} ];
+     m_comps := [Comp OOrigin "top" None [] [wit_var 0 "z" "mm" "1"] [];
+                 Comp OOrigin "c" (Some {| i_url := "f1.cellml"; i_lib := 0; i_ref := "c" |}) [] [] []];
+     m_eqs := [] |}.
+
+(* the units of variable vn of top-level component cn *)
+Definition units_of_var (m : model) (cn vn : string) : option string :=
+  match find (fun c => String.eqb (c_name c) cn) (m_comps m) with
+  | Some c => match find (fun v => String.eqb (v_name v) vn) (c_vars c) with Some v => v_units v | None => None end
+  | None => None
+  end.
+
+Lemma units_meaning_refuted :
+  exists libs origin n0 flat st new_units,
+    flatten_model 10 50 flat_current_fixes libs origin n0 = FOk (flat, st) /\
+    units_of_var flat "c" "x" = Some new_units /\
+    (* the imported component's x was in units u of the imported model *)
+    units_equivalent libs [m_units flat; m_units wit_lib] 0 new_units 1 "u" = FOk false.
+Proof.
+  exists [wit_lib], wit_origin, 100.
+  destruct (flatten_model 10 50 flat_current_fixes [wit_lib] wit_origin 100) as [[flat st]| | |] eqn:E;
+    try (vm_compute in E; discriminate).
+  exists flat, st, "mm_1". split; [reflexivity|].
+  vm_compute in E. inversion E; subst flat st. split; vm_compute; reflexivity.
+Qed.
+
+(* ================================================================================== ids of imported connections are lost *)
+(* K36 for flattening: the equivalences inside an imported component and the equivalences of its placeholder variables are
+   re-created with the two-argument addEquivalence: their mapping and connection ids are gone. *)
+Definition ids_var (o : nat) (n : string) (u : option string) : variable :=
+  {| v_oid := o; v_name := n; v_units := u; v_init := ""; v_iface := "public_and_private" |}.
+Definition ids_lib : model :=
+  {| m_own := OLib 0; m_name := "m1"; m_units := [];
+     m_comps := [Comp (OLib 0) "c" None [] [ids_var 10 "x" (Some "metre")] [Comp (OLib 0) "k1" None [] [ids_var 11 "a" (Some "metre")] []]];
+     m_eqs := [{| e_a := 10; e_b := 11; e_map := "map1"; e_conn := "conn1" |}] |}.
+Definition ids_origin : model :=
+  {| m_own := OOrigin; m_name := "m0"; m_units := [];
+     m_comps := [Comp OOrigin "top" None [] [ids_var 0 "z" (Some "metre")] [];
+                 Comp OOrigin "c" (Some {| i_url := "f1.cellml"; i_lib := 0; i_ref := "c" |}) [] [ids_var 1 "x" None] []];
+     m_eqs := [{| e_a := 0; e_b := 1; e_map := "map0"; e_conn := "conn0" |}] |}.
+
+Lemma flatten_ids_refuted :
+  exists flat st, flatten_model 10 50 flat_current_fixes [ids_lib] ids_origin 100 = FOk (flat, st) /\
+    List.length (m_eqs flat) = 2 /\ forall e, In e (m_eqs flat) -> e_map e = "" /\ e_conn e = "".
+Proof.
+  eexists. eexists. split; [vm_compute; reflexivity|]. split; [reflexivity|].
+  intros e [H|[H|[]]]; subst e; split; reflexivity.
+Qed.
+
+(* with the candidate repair (fx_ids) both keep their ids *)
+Lemma flatten_ids_repaired :
+  exists flat st, flatten_model 10 50 flat_all_fixed [ids_lib] ids_origin 100 = FOk (flat, st) /\
+    map (fun e => (e_map e, e_conn e)) (m_eqs flat) = [("map0", "conn0"); ("map1", "conn1")].
+Proof. eexists. eexists. split; vm_compute; reflexivity. Qed.
